@@ -18,6 +18,7 @@ CONSTANTS
   Cuts = TRUE
   MaxNow = 0
   MaxLevel = 999
+  Pipe = FALSE
   MaxDin = 3
 INIT MCInit
 NEXT MCNext
